@@ -450,7 +450,8 @@ def install_probes():
         ref = self.specification.reference
         cur = simk.K.cur() if simk.K is not None else None
         via_pm = getattr(cur, '_in_pm', None) == ref  # called by this component's own postMortemCheck (its verdict)
-        REC.ev('finish', ref, {'to': finalState, 'state': self.state, 'via_pm': via_pm})
+        REC.ev('finish', ref, {'to': finalState, 'state': self.state, 'via_pm': via_pm,
+                               'thr': getattr(cur, 'name', None)})
         return o_finish(self, finalState)
 
     CS.finish = cs_finish
@@ -510,7 +511,8 @@ def install_probes():
         o_kill = cls.__dict__['kill']
 
         def e_kill(self, _o=o_kill, _l=label):
-            REC.ev(_l, self.job.reference, {'alive': self.isAlive()})
+            cur = simk.K.cur() if simk.K is not None else None
+            REC.ev(_l, self.job.reference, {'alive': self.isAlive(), 'thr': getattr(cur, 'name', None)})
             return _o(self)
 
         cls.kill = e_kill
